@@ -75,7 +75,7 @@ fn model_remove(m: &mut Vec<Entry>, id: u32, len: u32) -> Option<u32> {
 
 fn histories(env: &Env, k: u64, d: &mut Delta) {
     let mut rng = scenario_rng("C09", env.seed, k);
-    let n_hist = env.tier.pick(120, 320);
+    let n_hist = env.tier.pick3(120, 320, 2);
     for h in 0..n_hist {
         d.evaluations += 1;
         let mut table: IpTable<u32> = IpTable::new();
@@ -316,7 +316,7 @@ fn histories(env: &Env, k: u64, d: &mut Delta) {
 
 fn arithmetic(env: &Env, k: u64, d: &mut Delta) {
     let mut rng = scenario_rng("C09a", env.seed, k);
-    let n = env.tier.pick(4000, 40000);
+    let n = env.tier.pick3(4000, 40000, 40);
     for i in 0..n {
         d.evaluations += 1;
         let len = rng.gen_range(0..=32u32);
